@@ -165,6 +165,15 @@ def check_resample(pre, post, ne, flag, an=None):
                     add("G3", "two-point interface on the tissue border was not contracted", interface=p)
             else:
                 add("G3", "two-point border interface half-contracted", interface=p)
+    # members of a cascade (contractions that share a vertex): where the merged vertex ends up is not determined,
+    # but a two-point interface that lies on the border proper (one owning cell) must be gone all the same
+    for p in K:
+        if p in isolated:
+            continue
+        owners = an["pair_cells"].get(frozenset(p), set())
+        if len(owners) == 1 and (p[0] in same or p[1] in same):
+            add("G3", "two-point interface on the tissue border was not contracted: one of its ends is still there "
+                      "(chain of contractions)", interface=p, surviving=[v for v in p if v in same])
     if merging and not cascade_v:
         unexplained = new - set(subst.values())
         if unexplained:
